@@ -174,8 +174,7 @@ class ProtocolContext:
                 self.is_sending, bool
             ), f"{self}: Coding error"  # TODO: remove
 
-            if timed_out:
-                assert self._cmd is not None, f"{self}: Coding error"  # mypy hint
+            if timed_out and self._cmd is not None:  # else: was abandoned in the meantime
                 self._send_cmd(self._cmd, is_retry=True)
 
             if isinstance(self._state, IsInIdle):
